@@ -353,7 +353,9 @@ def plan(ctx):
             walk = [o for o in ops if op_class(o) == "walk" and not o.startswith("write")]
             pick = rng.sample(walk, min(4, len(walk))) if walk else []
             crashy = [o for o in ops if op_class(o) != "walk"]
-            if sh in ("list", "rdeep", "lbin", "nest", "sum", "conj", "none", "vlist"):
+            if sh in ("list", "rdeep", "lbin", "nest"):
+                sel = ops            # every operation on the four canonical shapes
+            elif sh in ("sum", "conj", "none", "vlist"):
                 sel = pick + ["write"] * (1 if "write" in ops else 0) + crashy
             else:
                 sel = pick
